@@ -717,12 +717,19 @@ fn semantic_failing_files(rng: &mut Rng, n: usize) -> Vec<corpus::TestFile> {
             }
             cs.push(RawChunk::new(b"IDAT", zlib_stream(&raw, &Deflater::Level(6))));
         } else {
-            // two full-canvas frames; the damaged one is the first or the second
-            let second = Img::random(&mut r, img.color, img.depth, img.w, img.w);
-            let second = Img { w: img.w, h: img.h, ..second };
-            let second = if second.pixels.len() == img.pixels.len() { second } else { img.clone() };
-            let (mut raw2, _) = scanlines(&second, interlace, &Filters::Random, &mut r);
+            // two frames; the damaged one is the first or the second.  When the first is damaged the second is, in half of the cases, a
+            // NARROWER sub-frame: whatever the reader keeps from the failed frame (previous row, partial row) then has the wrong length
             let which = i % 4 < 2;
+            let narrow = which && r.bool() && img.w > 1;
+            let second = if narrow {
+                let (w2, h2) = (r.range(1, img.w as u64 - 1) as u32, r.range(1, img.h as u64) as u32);
+                Img::random(&mut r, img.color, img.depth, w2, h2)
+            } else {
+                let second = Img::random(&mut r, img.color, img.depth, img.w, img.w);
+                let second = Img { w: img.w, h: img.h, ..second };
+                if second.pixels.len() == img.pixels.len() { second } else { img.clone() }
+            };
+            let (mut raw2, _) = scanlines(&second, interlace, &Filters::Random, &mut r);
             let target: &mut Vec<u8> = if which { &mut raw } else { &mut raw2 };
             if !interlace {
                 damage(target, &mut r, kind, img.row_bytes(), img.h as usize);
@@ -735,7 +742,7 @@ fn semantic_failing_files(rng: &mut Rng, n: usize) -> Vec<corpus::TestFile> {
             cs.push(actl(2, 0));
             cs.push(Fctl { seq: 0, w: img.w, h: img.h, x: 0, y: 0, delay_num: 1, delay_den: 1, dispose: 0, blend: 0 }.chunk());
             cs.push(RawChunk::new(b"IDAT", zlib_stream(&raw, &Deflater::Level(6))));
-            cs.push(Fctl { seq: 1, w: img.w, h: img.h, x: 0, y: 0, delay_num: 1, delay_den: 1, dispose: 0, blend: 0 }.chunk());
+            cs.push(Fctl { seq: 1, w: second.w, h: second.h, x: 0, y: 0, delay_num: 1, delay_den: 1, dispose: 0, blend: 0 }.chunk());
             let mut d = 2u32.to_be_bytes().to_vec();
             d.extend(zlib_stream(&raw2, &Deflater::Level(6)));
             cs.push(RawChunk::new(b"fdAT", d));
@@ -1353,6 +1360,8 @@ pub fn run_c02(ctx: &mut Ctx) {
     files.extend(chunk_soups(&mut rng, ctx.n(600, 1500)));
     files.extend(failing_files(&mut rng, ctx.n(14, 70)));
     files.extend(corpus::truncated_body_files(&mut rng));
+    // frames that fail at the Reader layer (rows missing, undefined filter type) followed by a frame of another size (seeded change C02_12)
+    files.extend(semantic_failing_files(&mut rng, ctx.n(24, 60)));
     let alphabet = [Op::NextFrame(0xFF), Op::NextRow, Op::ReadRow, Op::NextFrameInfo, Op::Finish];
     let mut runs = vec![];
     let mut traces = vec![];
